@@ -509,7 +509,7 @@ type explorer struct {
 	failedLineages int
 }
 
-const maxFailedLineagesPerCase = 40
+const maxFailedLineagesPerCase = 12
 
 func (e *explorer) giveUp() bool {
 	return e.c.Stopped() || e.failedLineages >= maxFailedLineagesPerCase
@@ -1039,7 +1039,15 @@ func (e *explorer) history(ci int) (*image, *model) {
 func run(c *ev.Ctx) {
 	log.GlobalLogger().SetLevel(log.FatalLevel)
 	p := paramsFor(c.Tier)
+	// once a case has used up its failure budget the remaining cases of the
+	// batch are skipped: the violations are recorded, and a broken WAL can make
+	// every further recovery very slow (garbage length fields allocate GBs)
+	abortBatch := false
 	c.Cases(func(ci int, r *rand.Rand) {
+		if abortBatch {
+			c.Count("cases_skipped_after_failures", 1)
+			return
+		}
 		root, err := os.MkdirTemp("", "verif-c03-")
 		if err != nil {
 			c.Notef("harness: %v", err)
@@ -1065,6 +1073,9 @@ func run(c *ev.Ctx) {
 				break
 			}
 			e.explore(img, cp, m.clone(), 1)
+		}
+		if e.failedLineages >= maxFailedLineagesPerCase {
+			abortBatch = true
 		}
 	})
 }
